@@ -2,7 +2,10 @@
 """Regenerates MANIFEST.json from checks.json (+ na.json for not_applicable reasons)."""
 import json, os, subprocess
 V = os.path.dirname(os.path.abspath(__file__))
-reg = json.load(open(os.path.join(V, "checks.json")))
+import importlib.machinery, importlib.util
+_l = importlib.machinery.SourceFileLoader("chk", os.path.join(V, "check"))
+_s = importlib.util.spec_from_loader("chk", _l); chk = importlib.util.module_from_spec(_s); _l.exec_module(chk)
+reg = chk.REG
 na = json.load(open(os.path.join(V, "na.json"))) if os.path.exists(os.path.join(V, "na.json")) else {}
 ids = [json.loads(l)["id"] for l in open(os.path.join(V, "properties.jsonl"))]
 hooks = []
